@@ -1,1 +1,764 @@
-From Furax Require Import Base.Pytree Model.Op Model.Algebra Model.Denote.
+(* Soundness of the symbolic layer: @ (matmul), the binary rules, the scalar/identity rules, the
+   scan and reduce() preserve the denoted map, for arbitrary leaf semantics satisfying `leaf_facts`. *)
+From Coq Require Import List Bool Arith ZArith NArith QArith String Lia Ring.
+From Furax Require Import Base.Pytree Model.Op Model.Algebra Model.Denote Lemmas.DenoteL.
+Import ListNotations.
+Local Close Scope Q_scope.
+Local Open Scope nat_scope.
+
+Section Sound.
+  Variable K : Type.
+  Variables (k0 k1 : K) (kadd kmul ksub : K -> K -> K) (kopp : K -> K).
+  Hypothesis Kth : ring_theory k0 k1 kadd kmul ksub kopp (@eq K).
+  Add Ring Kring2 : Kth.
+  Variable keqb : K -> K -> bool.
+  Hypothesis keqb_eq : forall a b, keqb a b = true -> a = b.
+  Notation op := (op K).
+  Notation value := (value K).
+  Variable leafsem : op -> value -> option value.
+  Notation denote := (denote kadd kmul leafsem).
+  Notation chain := (chain kadd kmul leafsem).
+  Notation vscale := (vscale kmul).
+  Notation vsum := (vsum kadd).
+  Notation den_le := (den_le kadd kmul leafsem).
+  Notation chain_le := (chain_le kadd kmul leafsem).
+  Notation denote_list := (denote_list kadd kmul leafsem).
+  Notation same := (same keqb).
+  Notation matmul := (matmul keqb kmul).
+  Notation guard_ok := (guard_ok keqb).
+  Notation apply_rule := (apply_rule keqb kmul).
+  Notation fires := (fires keqb kmul).
+  Notation scan := (scan keqb k1 kmul).
+  Notation algebraic_reduction := (algebraic_reduction keqb k1 kmul).
+  Notation reduce := (reduce keqb k1 kmul).
+  Notation homothety_rule := (homothety_rule k1 kmul).
+
+  Definition leaflike (e : op) : bool :=
+    match e with Prim _ _ _ _ _ | Wrap _ _ _ => true | _ => false end.
+  Definition R (i : N) (si so : struct) (a : list Q) : op := Prim i CQURotation si so (PAngles a).
+
+  (* What the algebra needs to know about the leaf operators.  Each item is a fact of linear
+     algebra about a primitive; C12, C13, C15 discharge them for the concrete primitives, and
+     for opaque operators (user matrices, iterative inverses) they are the assumptions of C01. *)
+  Record leaf_facts : Prop := {
+    lf_hom : forall e k x, leaflike e = true ->
+      leafsem e (vscale k x) = option_map (vscale k) (leafsem e x);
+    lf_inv_l : forall i w e x y1 y, isinst (wcls w) [CAbstractLazyInverse] = true ->
+      denote e x = Some y1 -> leafsem (Wrap i w e) y1 = Some y -> y = x;
+    lf_inv_r : forall i w e x y1 y, isinst (wcls w) [CAbstractLazyInverse] = true ->
+      leafsem (Wrap i w e) x = Some y1 -> denote e y1 = Some y -> y = x;
+    lf_move : forall il sil sol ir sir sor s d x y1 y,
+      leafsem (Prim ir CMoveAxis sir sor (PAxes s d)) x = Some y1 ->
+      leafsem (Prim il CMoveAxis sil sol (PAxes d s)) y1 = Some y -> y = x;
+    lf_reshape_l : forall l i w x y1 y, is_a l [CAbstractRavelOrReshape] = true ->
+      subclass (wcls w) CReshapeTranspose = true ->
+      leafsem (Wrap i w l) x = Some y1 -> denote l y1 = Some y -> y = x;
+    lf_reshape_r : forall l i w x y1 y, is_a l [CAbstractRavelOrReshape] = true ->
+      subclass (wcls w) CReshapeTranspose = true ->
+      denote l x = Some y1 -> leafsem (Wrap i w l) y1 = Some y -> y = x;
+    lf_pack : forall l i w x y1 y, is_a l [CPack] = true -> subclass (wcls w) CTranspose = true ->
+      leafsem (Wrap i w l) x = Some y1 -> denote l y1 = Some y -> y = x;
+    lf_index_unique : forall il cl si so ix i w x y1 y, subclass (wcls w) CTranspose = true ->
+      leafsem (Wrap i w (Prim il cl si so (PIndex true ix))) x = Some y1 ->
+      leafsem (Prim il cl si so (PIndex true ix)) y1 = Some y -> y = x;
+    lf_tindex : forall ir cr si so ix i w axis rest d sh shs n x y1 y,
+      subclass (wcls w) CTranspose = true ->
+      indexed_axes ix = axis :: rest -> (List.length (axis :: rest) <=? 1) = true ->
+      leaf_shapes si = sh :: shs -> forallb (shape_eqb sh) shs = true ->
+      py_nth ix axis = Some (IArr d) -> py_nth sh axis = Some n ->
+      leafsem (Prim ir cr si so (PIndex false ix)) x = Some y1 ->
+      leafsem (Wrap i w (Prim ir cr si so (PIndex false ix))) y1 = Some y ->
+      leafsem (Prim fresh CDiagonal si si (PDiag axis (map inject_Z (coverage_of n d)))) x = Some y;
+    lf_index_noop : forall i c si so u ix x y, indexed_axes ix = [] ->
+      leafsem (Prim i c si so (PIndex u ix)) x = Some y -> y = x;
+    lf_reshape_noop : forall i c si so p x y, (c = CRavel \/ c = CReshape) ->
+      leafsem (Prim i c si so p) x = Some y -> y = x;
+    (* QU rotations, half-wave plate, polariser (C15) *)
+    lf_rr : forall il sil sol la ir sir sor ra x y1 y,
+      leafsem (R ir sir sor ra) x = Some y1 -> leafsem (R il sil sol la) y1 = Some y ->
+      leafsem (R fresh sir sir (qadd la ra)) x = Some y;
+    lf_rrT : forall il sil sol la ir jr sjr sojr ra x y1 y,
+      leafsem (Wrap ir WQURotT (R jr sjr sojr ra)) x = Some y1 -> leafsem (R il sil sol la) y1 = Some y ->
+      leafsem (R fresh sojr sojr (qsub la ra)) x = Some y;
+    lf_rTr : forall il jl sjl sojl la ir sir sor ra x y1 y,
+      leafsem (R ir sir sor ra) x = Some y1 -> leafsem (Wrap il WQURotT (R jl sjl sojl la)) y1 = Some y ->
+      leafsem (R fresh sir sir (qsub ra la)) x = Some y;
+    lf_rTrT : forall il jl sjl sojl la ir jr sjr sojr ra x y1 y,
+      leafsem (Wrap ir WQURotT (R jr sjr sojr ra)) x = Some y1 ->
+      leafsem (Wrap il WQURotT (R jl sjl sojl la)) y1 = Some y ->
+      leafsem (R fresh sojr sojr (qsub (qneg la) ra)) x = Some y;
+    lf_rot_hwp : forall il sil sol pl r x y1 y, is_a r [CHWP] = true ->
+      denote r x = Some y1 -> leafsem (Prim il CQURotation sil sol pl) y1 = Some y ->
+      exists y2, leafsem (Wrap fresh WQURotT (Prim il CQURotation sil sol pl)) x = Some y2 /\ denote r y2 = Some y;
+    lf_rotT_hwp : forall il lx r x y1 y, is_a r [CHWP] = true ->
+      denote r x = Some y1 -> leafsem (Wrap il WQURotT lx) y1 = Some y ->
+      exists y2, denote lx x = Some y2 /\ denote r y2 = Some y;
+    lf_pol_hwp : forall l r x y1 y, is_a l [CLinearPolarizer] = true -> is_a r [CHWP] = true ->
+      denote r x = Some y1 -> denote l y1 = Some y -> denote l x = Some y
+  }.
+
+  Hypothesis LF : leaf_facts.
+
+  (* ---------- small tools ---------- *)
+  Lemma chain2 l r x y : chain [l; r] x = Some y ->
+    exists y1, denote r x = Some y1 /\ denote l y1 = Some y.
+  Proof.
+    unfold Denote.chain; cbn. destruct (denote r x) as [y1|]; [|discriminate].
+    cbn. intros H. now exists y1.
+  Qed.
+  Lemma chain2' l r x y1 y : denote r x = Some y1 -> denote l y1 = Some y -> chain [l; r] x = Some y.
+  Proof. unfold Denote.chain; cbn. intros -> H. exact H. Qed.
+  Lemma denote_leaf e x : leaflike e = true -> denote e x = leafsem e x.
+  Proof. destruct e; cbn; congruence. Qed.
+  Lemma same_eq' a b : same a b = true -> a = b.
+  Proof. apply same_eq, keqb_eq. Qed.
+  Lemma den_le_refl e : den_le e e.
+  Proof. intros x y H; exact H. Qed.
+  Lemma result_bind_ok A B (r : result A) (f : A -> result B) b :
+    bind r f = Ok b -> exists a, r = Ok a /\ f a = Ok b.
+  Proof. destruct r; cbn; [eauto|discriminate]. Qed.
+
+  (* ---------- A @ B ---------- *)
+  Lemma chain_operands b x : chain (operands b) x = denote b x.
+  Proof. destruct b; try reflexivity. cbn [operands]. now rewrite denote_comp. Qed.
+
+  Lemma base_matmul_sound a b c : base_matmul keqb a b = Ok c -> chain_le [a; b] [c].
+  Proof.
+    unfold base_matmul. destruct (negb (struct_eqb (in_struct a) (out_struct b))); [discriminate|].
+    intros H x y Hc. rewrite chain_single.
+    assert (Hdef : c = Comp fresh [a; b] -> denote c x = Some y).
+    { intros ->. rewrite denote_comp. exact Hc. }
+    destruct b as [ib cb sib sob pb|ib wb eb|ib sb|ib kb sb|ib lb|ib lb|ib bb tdb lb];
+      cbn [lazy_inverse_of] in H; try (inversion H; subst; now apply Hdef).
+    - (* b is a lazy wrapper *)
+      destruct (isinst (wcls wb) [CAbstractLazyInverse]) eqn:Ei.
+      + destruct (same eb a) eqn:Es.
+        * inversion H; subst c. apply same_eq' in Es; subst eb.
+          apply chain2 in Hc as (y1 & H1 & H2). cbn [Denote.denote] in H1.
+          cbn [Denote.denote]. f_equal. symmetry. eapply (lf_inv_r LF); eauto.
+        * inversion H; subst. now apply Hdef.
+      + inversion H; subst. now apply Hdef.
+    - (* b is a composition: CompositionOperator.__rmatmul__ *)
+      inversion H; subst c. rewrite denote_comp.
+      apply chain2 in Hc as (y1 & H1 & H2). rewrite denote_comp in H1.
+      rewrite chain_cons, H1. exact H2.
+  Qed.
+
+  Lemma matmul_sound a b c : matmul a b = Ok c -> chain_le [a; b] [c].
+  Proof.
+    unfold Algebra.matmul.
+    destruct a as [ia ca sia soa pa|ia wa ea|ia sa|ia ka sa|ia la|ia la|ia ba tda la];
+      try apply base_matmul_sound.
+    - (* lazy wrapper on the left *)
+      cbn [lazy_inverse_of]. destruct (isinst (wcls wa) [CAbstractLazyInverse]) eqn:Ei; [|apply base_matmul_sound].
+      destruct (same ea b) eqn:Es; [|apply base_matmul_sound].
+      intros H x y Hc. inversion H; subst c. apply same_eq' in Es; subst ea.
+      apply chain2 in Hc as (y1 & H1 & H2). rewrite chain_single. cbn [Denote.denote] in H2 |- *.
+      f_equal. symmetry. eapply (lf_inv_l LF); eauto.
+    - (* identity *)
+      destruct (negb _); [discriminate|]. intros H x y Hc. inversion H; subst c.
+      apply chain2 in Hc as (y1 & H1 & H2). cbn [Denote.denote] in H2. inversion H2; subst. now rewrite chain_single.
+    - (* scalar *)
+      destruct b as [ib cb sib sob pb|ib wb eb|ib sb|ib kb sb|ib lb|ib lb|ib bb tdb lb]; try apply base_matmul_sound.
+      destruct (negb _); [discriminate|]. intros H x y Hc. inversion H; subst c.
+      apply chain2 in Hc as (y1 & H1 & H2). cbn [Denote.denote] in *. inversion H1; subst. inversion H2; subst.
+      rewrite chain_single. cbn [Denote.denote]. f_equal. symmetry. apply (vscale_vscale Kth).
+    - (* composition on the left *)
+      destruct (negb _); [discriminate|]. intros H x y Hc. inversion H; subst c.
+      rewrite chain_single, denote_comp, chain_app, chain_operands.
+      apply chain2 in Hc as (y1 & H1 & H2). rewrite H1. cbn [obind]. now rewrite denote_comp in H2.
+  Qed.
+
+  (* ---------- homogeneity of every operator ---------- *)
+  Lemma omap2_hom (f : op -> value -> option value) k l : forall xs,
+    Forall (fun e => forall x, f e (vscale k x) = option_map (vscale k) (f e x)) l ->
+    omap2 f l (map (vscale k) xs) = option_map (map (vscale k)) (omap2 f l xs).
+  Proof.
+    induction l as [|e r IH]; intros [|x xs] HF; cbn; try reflexivity.
+    inversion HF as [|? ? He Hr]; subst. rewrite He, (IH xs Hr).
+    destruct (f e x); cbn; [|reflexivity]. destruct (omap2 f r xs); reflexivity.
+  Qed.
+  Lemma omapl_hom k l x :
+    Forall (fun e => forall x, denote e (vscale k x) = option_map (vscale k) (denote e x)) l ->
+    omapl (fun e => denote e (vscale k x)) l = option_map (map (vscale k)) (omapl (fun e => denote e x) l).
+  Proof.
+    induction 1 as [|e r He _ IH]; cbn [omapl]; [reflexivity|]. rewrite He, IH.
+    destruct (denote e x) as [y|]; cbn [option_map]; [|reflexivity].
+    destruct (omapl (fun e0 => denote e0 x) r) as [ys|]; reflexivity.
+  Qed.
+
+  Lemma split_vscale td k (x : value) :
+    split_prefix td (vscale k x) = option_map (map (vscale k)) (split_prefix td x).
+  Proof. apply split_prefix_pmap. Qed.
+  Lemma build_vscale td k (d : value) ys :
+    build (vscale k d) td (map (vscale k) ys) = vscale k (build d td ys).
+  Proof. apply build_pmap. Qed.
+
+  Lemma denote_hom : forall e k x, denote e (vscale k x) = option_map (vscale k) (denote e x).
+  Proof.
+    induction e as [i c si so p|i w e IH|i s|i k' s|i l IH|i l IH|i b td l IH] using op_ind'; intros k x.
+    - apply (lf_hom LF). reflexivity.
+    - apply (lf_hom LF). reflexivity.
+    - reflexivity.
+    - cbn [Denote.denote option_map]. f_equal. rewrite !(vscale_vscale Kth). f_equal. ring.
+    - rewrite !denote_comp. induction IH as [|e r He _ IHr]; [reflexivity|].
+      rewrite !chain_cons, IHr. destruct (chain r x) as [z|]; cbn; [apply He|reflexivity].
+    - rewrite !denote_add. rewrite (omapl_hom k l x) by (eapply Forall_impl; [|exact IH]; auto).
+      destruct (omapl (fun e => denote e x) l) as [ys|]; cbn; [|reflexivity]. apply (vsum_vscale Kth).
+    - rewrite !denote_block. destruct (negb _); [reflexivity|].
+      assert (HF : Forall (fun e => forall x, denote e (vscale k x) = option_map (vscale k) (denote e x)) l)
+        by (eapply Forall_impl; [|exact IH]; auto).
+      destruct b.
+      + rewrite split_vscale. destruct (split_prefix td x) as [xs|]; cbn [option_map obind]; [|reflexivity].
+        unfold DenoteL.denote_list. rewrite (omap2_hom denote k l xs HF).
+        destruct (omap2 denote l xs) as [ys|]; cbn [option_map obind]; [|reflexivity]. apply (vsum_vscale Kth).
+      + rewrite split_vscale. destruct (split_prefix td x) as [xs|]; cbn [option_map obind]; [|reflexivity].
+        unfold DenoteL.denote_list. rewrite (omap2_hom denote k l xs HF).
+        destruct (omap2 denote l xs) as [ys|]; cbn [option_map]; [|reflexivity]. f_equal. apply build_vscale.
+      + rewrite (omapl_hom k l x HF).
+        destruct (omapl (fun e => denote e x) l) as [ys|]; cbn [option_map]; [|reflexivity]. f_equal. apply build_vscale.
+  Qed.
+
+  Lemma chain_hom l k x : chain l (vscale k x) = option_map (vscale k) (chain l x).
+  Proof.
+    induction l as [|e r IH]; [reflexivity|]. rewrite !chain_cons, IH.
+    destruct (chain r x); cbn; [apply denote_hom|reflexivity].
+  Qed.
+
+  (* ---------- IdentityRule and HomothetyRule ---------- *)
+  Lemma identity_rule_sound ops : chain_le ops (identity_rule ops).
+  Proof.
+    intros x y. unfold identity_rule. induction ops as [|e r IH] in y |- *; [auto|].
+    rewrite chain_cons. cbn [filter]. destruct (chain r x) as [z|] eqn:E; [|discriminate]. cbn [obind].
+    destruct e; cbn [is_ident negb]; try (rewrite chain_cons, (IH _ eq_refl); cbn [obind]; auto).
+    cbn [Denote.denote]. intros H; inversion H; subst. now apply IH.
+  Qed.
+
+  Fixpoint prodH (ops : list op) : K :=
+    match ops with
+    | [] => k1
+    | Homoth _ k _ :: r => kmul k (prodH r)
+    | _ :: r => prodH r
+    end.
+  Lemma homoth_value_prod ops : homoth_value k1 kmul ops = prodH ops.
+  Proof.
+    unfold homoth_value.
+    assert (H : forall acc, fold_left (fun v e => match e with Homoth _ k _ => kmul v k | _ => v end) ops acc
+                          = kmul acc (prodH ops)).
+    { induction ops as [|e r IH]; intros acc; cbn [fold_left prodH]; [ring|].
+      destruct e; rewrite IH; try reflexivity. ring. }
+    rewrite H. ring.
+  Qed.
+  Definition others (ops : list op) : list op := filter (fun e => negb (is_homoth e)) ops.
+  Lemma pull_scalars ops : forall x y, chain ops x = Some y ->
+    exists y', chain (others ops) x = Some y' /\ y = vscale (prodH ops) y'.
+  Proof.
+    induction ops as [|e r IH]; intros x y H.
+    - exists y. split; [exact H|]. cbn. symmetry. apply (vscale_one Kth).
+    - rewrite chain_cons in H. destruct (chain r x) as [z|] eqn:E; [|discriminate]. cbn [obind] in H.
+      destruct (IH _ _ E) as (z' & Hz' & Hz).
+      assert (Hgen : is_homoth e = false -> prodH (e :: r) = prodH r ->
+                exists y', chain (others (e :: r)) x = Some y' /\ y = vscale (prodH (e :: r)) y').
+      { intros Hh Hp. unfold others. cbn [filter]. rewrite Hh. cbn [negb]. fold (others r).
+        rewrite Hz, denote_hom in H. destruct (denote e z') as [y''|] eqn:Ed; [|discriminate].
+        cbn in H. inversion H; subst y. exists y''. rewrite chain_cons, Hz'. cbn [obind]. rewrite Hp. auto. }
+      destruct e; try (apply Hgen; reflexivity).
+      cbn [Denote.denote] in H. inversion H; subst y. exists z'. split; [exact Hz'|].
+      cbn [prodH]. rewrite Hz. apply (vscale_vscale Kth).
+  Qed.
+
+  Lemma homothety_rule_sound ops : chain_le ops (homothety_rule ops).
+  Proof.
+    intros x y H. unfold Algebra.homothety_rule.
+    destruct ops as [|first [|second rest]]; try exact H.
+    set (ops := first :: second :: rest) in *.
+    destruct (Nat.eqb _ 0); [exact H|].
+    match goal with |- context [if ?c then ops else _] => destruct c end; [exact H|].
+    fold (others ops). rewrite homoth_value_prod.
+    destruct (pull_scalars ops x y H) as (y' & Hy' & Hy).
+    destruct (Nat.leb _ _).
+    - rewrite chain_cons, Hy'. cbn [obind Denote.denote]. now rewrite Hy.
+    - rewrite chain_app. cbn [Denote.chain fold_right obind Denote.denote].
+      rewrite chain_hom, Hy'. cbn. now rewrite Hy.
+  Qed.
+
+  (* ---------- the binary rules ---------- *)
+  Section Rules.
+    Variable rr : op -> result op.
+    Hypothesis Hrr : forall e e', rr e = Ok e' -> den_le e e'.
+
+    Lemma mapM2_matmul ll lr prods : mapM2 matmul ll lr = Ok prods ->
+      Forall2 (fun ab c => chain_le [fst ab; snd ab] [c]) (combine ll lr) prods /\
+      List.length ll = List.length lr /\ List.length prods = List.length ll.
+    Proof.
+      revert lr prods. induction ll as [|a ll IH]; intros [|b lr] prods H; cbn in H; try discriminate.
+      - inversion H; subst. cbn. auto.
+      - apply result_bind_ok in H as (c & Hc & H). apply result_bind_ok in H as (cs & Hcs & H).
+        inversion H; subst prods. destruct (IH _ _ Hcs) as (H1 & H2 & H3). cbn. repeat split; try lia.
+        constructor; [|exact H1]. cbn. now apply matmul_sound.
+    Qed.
+
+    (* block-wise application of pairwise products *)
+    Lemma products_apply ll lr prods :
+      Forall2 (fun ab c => chain_le [fst ab; snd ab] [c]) (combine ll lr) prods ->
+      List.length ll = List.length lr ->
+      forall xs ys zs, denote_list lr xs = Some ys -> denote_list ll ys = Some zs ->
+      denote_list prods xs = Some zs.
+    Proof.
+      unfold DenoteL.denote_list.
+      revert lr prods. induction ll as [|a ll IH]; intros [|b lr] prods HF Hlen xs ys zs H1 H2; cbn in Hlen; try lia.
+      - inversion HF; subst. destruct xs; [|discriminate]. cbn in H1. inversion H1; subst.
+        cbn in H2. inversion H2; subst. reflexivity.
+      - cbn in HF. inversion HF as [|? c ? cs Hc Hcs]; subst.
+        destruct xs as [|x xs]; [discriminate|]. cbn in H1.
+        destruct (denote b x) as [y|] eqn:Eb; [|discriminate].
+        destruct (omap2 denote lr xs) as [ys'|] eqn:Er; [|discriminate]. inversion H1; subst ys.
+        cbn in H2. destruct (denote a y) as [z|] eqn:Ea; [|discriminate].
+        destruct (omap2 denote ll ys') as [zs'|] eqn:El; [|discriminate]. inversion H2; subst zs.
+        cbn. cbn in Hc. rewrite <- chain_single. rewrite (Hc x z (chain2' _ _ _ _ _ Eb Ea)).
+        rewrite (IH lr cs Hcs ltac:(lia) xs ys' zs' Er El). reflexivity.
+    Qed.
+    Lemma products_apply_col ll lr prods :
+      Forall2 (fun ab c => chain_le [fst ab; snd ab] [c]) (combine ll lr) prods ->
+      List.length ll = List.length lr ->
+      forall x ys zs, omapl (fun e => denote e x) lr = Some ys -> denote_list ll ys = Some zs ->
+      omapl (fun e => denote e x) prods = Some zs.
+    Proof.
+      unfold DenoteL.denote_list.
+      revert lr prods. induction ll as [|a ll IH]; intros [|b lr] prods HF Hlen x ys zs H1 H2; cbn in Hlen; try lia.
+      - inversion HF; subst. cbn in H1. inversion H1; subst. cbn in H2. inversion H2; subst. reflexivity.
+      - cbn in HF. inversion HF as [|? c ? cs Hc Hcs]; subst. cbn in H1.
+        destruct (denote b x) as [y|] eqn:Eb; [|discriminate].
+        destruct (omapl (fun e => denote e x) lr) as [ys'|] eqn:Er; [|discriminate]. inversion H1; subst ys.
+        cbn in H2. destruct (denote a y) as [z|] eqn:Ea; [|discriminate].
+        destruct (omap2 denote ll ys') as [zs'|] eqn:El; [|discriminate]. inversion H2; subst zs.
+        cbn. cbn in Hc. rewrite <- chain_single. rewrite (Hc x z (chain2' _ _ _ _ _ Eb Ea)).
+        rewrite (IH lr cs Hcs ltac:(lia) x ys' zs' Er El). reflexivity.
+    Qed.
+    Lemma omap2_length (f : op -> value -> option value) l : forall xs ys,
+      omap2 f l xs = Some ys -> List.length ys = List.length l /\ List.length xs = List.length l.
+    Proof.
+      induction l as [|e r IH]; intros [|x xs] ys H; cbn in H; try discriminate.
+      - inversion H; auto.
+      - destruct (f e x); [|discriminate]. destruct (omap2 f r xs) as [ys'|] eqn:E; [|discriminate].
+        inversion H; subst. destruct (IH _ _ E). cbn. lia.
+    Qed.
+    Lemma omapl_length (f : op -> option value) l : forall ys,
+      omapl f l = Some ys -> List.length ys = List.length l.
+    Proof.
+      induction l as [|e r IH]; intros ys H; cbn in H.
+      - inversion H; auto.
+      - destruct (f e); [|discriminate]. destruct (omapl f r) as [ys'|] eqn:E; [|discriminate].
+        inversion H; subst. cbn. now rewrite (IH _ eq_refl).
+    Qed.
+
+    Lemma block_cls b c : bcls b = c ->
+      match c with CBlockRow => b = BRow | CBlockDiagonal => b = BDiag | CBlockColumn => b = BCol | _ => False end.
+    Proof. destruct b; intros <-; reflexivity. Qed.
+
+    Lemma is_a_block (e : op) c : is_a e [c] = true -> (c = CBlockRow \/ c = CBlockDiagonal \/ c = CBlockColumn) ->
+      forall i b td l, e = Block i b td l -> bcls b = c.
+    Proof.
+      intros H Hc i b td l ->. unfold is_a in H. cbn [cls_of] in H.
+      destruct b, Hc as [->|[->| ->]]; cbn in H; try discriminate; reflexivity.
+    Qed.
+
+    Lemma block_rule_sound reduced l r new bl br :
+      (forall i b td ll, l = Block i b td ll -> b = bl) ->
+      (forall i b td lr, r = Block i b td lr -> b = br) ->
+      match reduced, bl, br with
+      | Some BRow, BRow, BDiag | Some BCol, BDiag, BCol | Some BDiag, BDiag, BDiag | None, BRow, BCol => True
+      | _, _, _ => False
+      end ->
+      block_rule keqb kmul rr reduced l r = Ok (Some new) -> chain_le [l; r] new.
+    Proof.
+      intros Hl Hr Hkinds H. unfold block_rule in H.
+      destruct l as [| | | | | |il bl' tdl ll]; try discriminate.
+      destruct r as [| | | | | |ir br' tdr lr]; try discriminate.
+      specialize (Hl _ _ _ _ eq_refl). specialize (Hr _ _ _ _ eq_refl). subst bl' br'.
+      destruct (pt_eqb (fun _ _ : unit => true) tdl tdr) eqn:Etd; cbn [negb] in H; [|discriminate].
+      apply (pt_eqb_eq _ (@unit_eqb_eq)) in Etd. subst tdr.
+      apply result_bind_ok in H as (prods & Hp & H).
+      apply result_bind_ok in H as (newb & Hn & H).
+      apply result_bind_ok in H as (red & Hred & H). inversion H; subst new. clear H.
+      destruct (mapM2_matmul _ _ _ Hp) as (HF & Hlen & Hplen).
+      apply chain_le_trans with (b := [newb]); [|intros x y; rewrite !chain_single; apply (Hrr _ _ Hred)].
+      intros x y Hc. apply chain2 in Hc as (y1 & H1 & H2). rewrite chain_single.
+      rewrite denote_block in H1, H2.
+      destruct (negb (Nat.eqb (List.length lr) (nleaves tdl))) eqn:Elr; [discriminate|].
+      destruct (negb (Nat.eqb (List.length ll) (nleaves tdl))) eqn:Ell; [discriminate|].
+      assert (Hpl : negb (Nat.eqb (List.length prods) (nleaves tdl)) = false) by (rewrite Hplen; exact Ell).
+      apply negb_false_iff, Nat.eqb_eq in Elr, Ell.
+      destruct reduced as [[| |]|], bl, br; try contradiction.
+      - (* row @ diag *)
+        unfold mk_block in Hn. rewrite Hpl in Hn. destruct prods as [|p0 pr] eqn:Ep; [discriminate|].
+        destruct (all_eqb _); [|discriminate]. inversion Hn; subst newb. rewrite <- Ep in *.
+        rewrite denote_block, Hpl.
+        destruct (split_prefix tdl x) as [xs|] eqn:Ex; [|discriminate]. cbn [obind option_map] in *.
+        destruct (denote_list lr xs) as [ys|] eqn:Ey; [|discriminate]. cbn in H1. inversion H1; subst y1.
+        destruct (omap2_length _ _ _ _ Ey) as [Hy1 Hy2].
+        rewrite split_build in H2 by exact (eq_trans Hy1 Elr). cbn [obind] in H2.
+        destruct (denote_list ll ys) as [zs|] eqn:Ez; [|discriminate]. cbn [obind] in H2.
+        rewrite (products_apply _ _ _ HF Hlen _ _ _ Ey Ez). exact H2.
+      - (* diag @ diag *)
+        unfold mk_block in Hn. rewrite Hpl in Hn. destruct prods as [|p0 pr] eqn:Ep; [discriminate|].
+        inversion Hn; subst newb. rewrite <- Ep in *.
+        rewrite denote_block, Hpl.
+        destruct (split_prefix tdl x) as [xs|] eqn:Ex; [|discriminate]. cbn [obind option_map] in *.
+        destruct (denote_list lr xs) as [ys|] eqn:Ey; [|discriminate]. cbn in H1. inversion H1; subst y1.
+        destruct (omap2_length _ _ _ _ Ey) as [Hy1 Hy2].
+        rewrite split_build in H2 by exact (eq_trans Hy1 Elr). cbn [obind] in H2.
+        destruct (denote_list ll ys) as [zs|] eqn:Ez; [|discriminate]. cbn in H2. inversion H2; subst y.
+        rewrite (products_apply _ _ _ HF Hlen _ _ _ Ey Ez). cbn. f_equal.
+        destruct (omap2_length _ _ _ _ Ez) as [Hz1 Hz2]. apply build_dflt_irrelevant. apply Nat.eq_le_incl. exact (eq_sym (eq_trans Hz1 Ell)).
+      - (* diag @ col *)
+        unfold mk_block in Hn. rewrite Hpl in Hn. destruct prods as [|p0 pr] eqn:Ep; [discriminate|].
+        destruct (all_eqb _); [|discriminate]. inversion Hn; subst newb. rewrite <- Ep in *.
+        rewrite denote_block, Hpl.
+        destruct (omapl (fun e => denote e x) lr) as [ys|] eqn:Ey; [|discriminate]. cbn in H1. inversion H1; subst y1.
+        pose proof (omapl_length _ _ _ Ey) as Hy1.
+        rewrite split_build in H2 by exact (eq_trans Hy1 Elr). cbn [obind] in H2.
+        destruct (denote_list ll ys) as [zs|] eqn:Ez; [|discriminate]. cbn in H2. inversion H2; subst y.
+        rewrite (products_apply_col _ _ _ HF Hlen _ _ _ Ey Ez). cbn. f_equal.
+        destruct (omap2_length _ _ _ _ Ez) as [Hz1 Hz2]. apply build_dflt_irrelevant. apply Nat.eq_le_incl. exact (eq_sym (eq_trans Hz1 Ell)).
+      - (* row @ col -> sum *)
+        destruct prods as [|p0 pr] eqn:Ep; [discriminate|]. inversion Hn; subst newb. rewrite <- Ep in *.
+        rewrite denote_add.
+        destruct (omapl (fun e => denote e x) lr) as [ys|] eqn:Ey; [|discriminate]. cbn in H1. inversion H1; subst y1.
+        pose proof (omapl_length _ _ _ Ey) as Hy1.
+        rewrite split_build in H2 by exact (eq_trans Hy1 Elr). cbn [obind] in H2.
+        destruct (denote_list ll ys) as [zs|] eqn:Ez; [|discriminate]. cbn [obind] in H2.
+        rewrite (products_apply_col _ _ _ HF Hlen _ _ _ Ey Ez). exact H2.
+    Qed.
+
+    Ltac cls_cases H :=
+      match type of H with
+      | is_a ?e _ = true => unfold is_a in H; destruct e; cbn [cls_of] in H
+      end.
+
+    Lemma guard_parts g l r : guard_ok g l r = true ->
+      (match g_any g with
+       | Some cs => is_a l cs || is_a r cs
+       | None => (match g_left g with Some cs => is_a l cs | None => true end) &&
+                 (match g_right g with Some cs => is_a r cs | None => true end)
+       end) = true /\
+      (if is_exactly_transpose (g_left g) then match wrapped l with Some x => same x r | None => false end else true) = true /\
+      (if is_exactly_transpose (g_right g) then match wrapped r with Some x => same x l | None => false end else true) = true.
+    Proof. unfold Algebra.guard_ok. intros H. apply andb_true_iff in H as [H H3]. apply andb_true_iff in H as [H1 H2]. auto. Qed.
+
+    Lemma rule_sound ru l r new :
+      guard_ok (guard_of ru) l r = true ->
+      apply_rule rr ru l r = Ok (Some new) -> chain_le [l; r] new.
+    Proof.
+      intros Hg Ha. apply guard_parts in Hg as (Hc & Hl & Hr).
+      destruct ru; cbn [guard_of g_any g_left g_right is_exactly_transpose] in Hc, Hl, Hr;
+        cbn [Algebra.apply_rule] in Ha.
+      - (* InverseBinaryRule *)
+        destruct (lazy_inverse_of l) as [xl|] eqn:El.
+        + destruct (same xl r) eqn:Es; [|discriminate]. inversion Ha; subst new.
+          apply same_eq' in Es; subst xl. destruct l as [|il wl el| | | | |]; try discriminate.
+          cbn [lazy_inverse_of] in El. destruct (isinst (wcls wl) [CAbstractLazyInverse]) eqn:Ei; [|discriminate].
+          inversion El; subst el. intros x y Hch. apply chain2 in Hch as (y1 & H1 & H2).
+          cbn [Denote.denote] in H2. cbn. f_equal. symmetry. eapply (lf_inv_l LF); eauto.
+        + destruct (lazy_inverse_of r) as [xr|] eqn:Er; [|discriminate].
+          destruct (same xr l) eqn:Es; [|discriminate]. inversion Ha; subst new.
+          apply same_eq' in Es; subst xr. destruct r as [|ir wr er| | | | |]; try discriminate.
+          cbn [lazy_inverse_of] in Er. destruct (isinst (wcls wr) [CAbstractLazyInverse]) eqn:Ei; [|discriminate].
+          inversion Er; subst er. intros x y Hch. apply chain2 in Hch as (y1 & H1 & H2).
+          cbn [Denote.denote] in H1. cbn. f_equal. symmetry. eapply (lf_inv_r LF); eauto.
+      - (* MoveAxisInverseRule *)
+        apply andb_true_iff in Hc as [Hcl Hcr].
+        destruct l as [il cl sil sol pl| | | | | |]; try discriminate.
+        destruct pl as [| | | |ls ld|]; try discriminate.
+        destruct r as [ir cr sir sor pr| | | | | |]; try discriminate.
+        destruct pr as [| | | |rs rd|]; try discriminate.
+        destruct (list_eqb Z.eqb ls rd && list_eqb Z.eqb ld rs) eqn:E; [|discriminate]. inversion Ha; subst new.
+        apply andb_true_iff in E as [E1 E2].
+        apply (list_eqb_eq Z.eqb) in E1; [|intros; now apply Z.eqb_eq].
+        apply (list_eqb_eq Z.eqb) in E2; [|intros; now apply Z.eqb_eq]. subst ls ld.
+        assert (cl = CMoveAxis) by (unfold is_a in Hcl; cbn in Hcl; destruct cl; cbn in Hcl; try discriminate; reflexivity).
+        assert (cr = CMoveAxis) by (unfold is_a in Hcr; cbn in Hcr; destruct cr; cbn in Hcr; try discriminate; reflexivity).
+        subst cl cr. intros x y Hch. apply chain2 in Hch as (y1 & H1 & H2). cbn [Denote.denote] in H1, H2.
+        cbn. f_equal. symmetry. eapply (lf_move LF); eauto.
+      - (* ReshapeInverseRule *)
+        destruct (is_a l [CAbstractRavelOrReshape]) eqn:Ell.
+        + destruct (is_a r [CReshapeTranspose]) eqn:Err; cbn [negb] in Ha; [|discriminate].
+          destruct (wrapped r) as [xr|] eqn:Ew; [|discriminate].
+          destruct (same xr l) eqn:Es; [|discriminate]. inversion Ha; subst new.
+          apply same_eq' in Es; subst xr. destruct r as [|ir wr er| | | | |]; try discriminate.
+          cbn in Ew. inversion Ew; subst er.
+          assert (Hw : subclass (wcls wr) CReshapeTranspose = true)
+            by (unfold is_a, isinst in Err; cbn in Err; now rewrite orb_false_r in Err).
+          intros x y Hch. apply chain2 in Hch as (y1 & H1 & H2). cbn [Denote.denote] in H1.
+          cbn. f_equal. symmetry. eapply (lf_reshape_l LF); eauto.
+        + destruct (is_a l [CReshapeTranspose]) eqn:Elt; [|discriminate].
+          destruct (is_a r [CAbstractRavelOrReshape]) eqn:Err; cbn [negb] in Ha; [|discriminate].
+          destruct (wrapped l) as [xl|] eqn:Ew; [|discriminate].
+          destruct (same xl r) eqn:Es; [|discriminate]. inversion Ha; subst new.
+          apply same_eq' in Es; subst xl. destruct l as [|il wl el| | | | |]; try discriminate.
+          cbn in Ew. inversion Ew; subst el.
+          assert (Hw : subclass (wcls wl) CReshapeTranspose = true)
+            by (unfold is_a, isinst in Elt; cbn in Elt; now rewrite orb_false_r in Elt).
+          intros x y Hch. apply chain2 in Hch as (y1 & H1 & H2). cbn [Denote.denote] in H2.
+          cbn. f_equal. symmetry. eapply (lf_reshape_r LF); eauto.
+      - (* PackUnpackRule *)
+        inversion Ha; subst new. apply andb_true_iff in Hc as [Hcl Hcr].
+        destruct (wrapped r) as [xr|] eqn:Ew; [|discriminate]. apply same_eq' in Hr; subst xr.
+        destruct r as [|ir wr er| | | | |]; try discriminate. cbn in Ew. inversion Ew; subst er.
+        assert (Hw : subclass (wcls wr) CTranspose = true)
+          by (unfold is_a, isinst in Hcr; cbn in Hcr; now rewrite orb_false_r in Hcr).
+        intros x y Hch. apply chain2 in Hch as (y1 & H1 & H2). cbn [Denote.denote] in H1.
+        cbn. f_equal. symmetry. eapply (lf_pack LF); eauto.
+      - (* QURotationRule *)
+        destruct (angles_of l) as [la|] eqn:Eal.
+        + destruct l as [il cl sil sol pl| | | | | |]; try discriminate. cbn in Eal.
+          destruct cl; try discriminate. destruct pl; try discriminate. inversion Eal; subst a.
+          destruct (angles_of r) as [ra|] eqn:Ear.
+          * destruct r as [ir cr sir sor pr| | | | | |]; try discriminate. cbn in Ear.
+            destruct cr; try discriminate. destruct pr; try discriminate. inversion Ear; subst a.
+            inversion Ha; subst new. intros x y Hch. apply chain2 in Hch as (y1 & H1 & H2).
+            cbn [Denote.denote] in H1, H2. rewrite chain_single. cbn [Denote.denote in_struct structs fst].
+            eapply (lf_rr LF); eauto.
+          * destruct r as [|ir wr er| | | | |]; try discriminate. destruct wr; try discriminate.
+            destruct (angles_of er) as [ra|] eqn:Eer; [|discriminate].
+            destruct er as [jr cr sjr sojr pr| | | | | |]; try discriminate. cbn in Eer.
+            destruct cr; try discriminate. destruct pr; try discriminate. inversion Eer; subst a.
+            inversion Ha; subst new. intros x y Hch. apply chain2 in Hch as (y1 & H1 & H2).
+            cbn [Denote.denote] in H1, H2. rewrite chain_single. cbn [Denote.denote in_struct structs fst snd].
+            eapply (lf_rrT LF); eauto.
+        + destruct l as [|il wl el| | | | |]; try discriminate. destruct wl; try discriminate.
+          destruct (angles_of el) as [la|] eqn:Eel; [|discriminate].
+          destruct el as [jl cl sjl sojl pl| | | | | |]; try discriminate. cbn in Eel.
+          destruct cl; try discriminate. destruct pl; try discriminate. inversion Eel; subst a.
+          destruct (angles_of r) as [ra|] eqn:Ear.
+          * destruct r as [ir cr sir sor pr| | | | | |]; try discriminate. cbn in Ear.
+            destruct cr; try discriminate. destruct pr; try discriminate. inversion Ear; subst a.
+            inversion Ha; subst new. intros x y Hch. apply chain2 in Hch as (y1 & H1 & H2).
+            cbn [Denote.denote] in H1, H2. rewrite chain_single. cbn [Denote.denote in_struct structs fst].
+            eapply (lf_rTr LF); eauto.
+          * destruct r as [|ir wr er| | | | |]; try discriminate. destruct wr; try discriminate.
+            destruct (angles_of er) as [ra|] eqn:Eer; [|discriminate].
+            destruct er as [jr cr sjr sojr pr| | | | | |]; try discriminate. cbn in Eer.
+            destruct cr; try discriminate. destruct pr; try discriminate. inversion Eer; subst a.
+            inversion Ha; subst new. intros x y Hch. apply chain2 in Hch as (y1 & H1 & H2).
+            cbn [Denote.denote] in H1, H2. rewrite chain_single. cbn [Denote.denote in_struct structs fst snd].
+            eapply (lf_rTrT LF); eauto.
+      - (* QURotationHWPRule *)
+        apply andb_true_iff in Hc as [Hcl Hcr].
+        destruct l as [il cl sil sol pl|il wl el| | | | |]; try discriminate.
+        + destruct cl; try discriminate. inversion Ha; subst new.
+          intros x y Hch. apply chain2 in Hch as (y1 & H1 & H2). cbn [Denote.denote] in H2.
+          destruct (lf_rot_hwp LF _ _ _ _ _ _ _ _ Hcr H1 H2) as (y2 & H3 & H4).
+          eapply chain2'; [|exact H4]. exact H3.
+        + destruct wl; try discriminate. inversion Ha; subst new.
+          intros x y Hch. apply chain2 in Hch as (y1 & H1 & H2). cbn [Denote.denote] in H2.
+          destruct (lf_rotT_hwp LF _ _ _ _ _ _ Hcr H1 H2) as (y2 & H3 & H4).
+          eapply chain2'; [exact H3|exact H4].
+      - (* LinearPolarizerHWPRule *)
+        apply andb_true_iff in Hc as [Hcl Hcr]. inversion Ha; subst new.
+        intros x y Hch. apply chain2 in Hch as (y1 & H1 & H2). rewrite chain_single.
+        eapply (lf_pol_hwp LF); eauto.
+      - (* row @ diag *)
+        apply andb_true_iff in Hc as [Hcl Hcr].
+        eapply (block_rule_sound (Some BRow) l r new BRow BDiag); [| |exact I|exact Ha].
+        + intros i b td ll ->. pose proof (is_a_block _ _ Hcl ltac:(auto) _ _ _ _ eq_refl) as Hb. now destruct b.
+        + intros i b td lr ->. pose proof (is_a_block _ _ Hcr ltac:(auto) _ _ _ _ eq_refl) as Hb. now destruct b.
+      - apply andb_true_iff in Hc as [Hcl Hcr].
+        eapply (block_rule_sound (Some BCol) l r new BDiag BCol); [| |exact I|exact Ha].
+        + intros i b td ll ->. pose proof (is_a_block _ _ Hcl ltac:(auto) _ _ _ _ eq_refl) as Hb. now destruct b.
+        + intros i b td lr ->. pose proof (is_a_block _ _ Hcr ltac:(auto) _ _ _ _ eq_refl) as Hb. now destruct b.
+      - apply andb_true_iff in Hc as [Hcl Hcr].
+        eapply (block_rule_sound (Some BDiag) l r new BDiag BDiag); [| |exact I|exact Ha].
+        + intros i b td ll ->. pose proof (is_a_block _ _ Hcl ltac:(auto) _ _ _ _ eq_refl) as Hb. now destruct b.
+        + intros i b td lr ->. pose proof (is_a_block _ _ Hcr ltac:(auto) _ _ _ _ eq_refl) as Hb. now destruct b.
+      - apply andb_true_iff in Hc as [Hcl Hcr].
+        eapply (block_rule_sound None l r new BRow BCol); [| |exact I|exact Ha].
+        + intros i b td ll ->. pose proof (is_a_block _ _ Hcl ltac:(auto) _ _ _ _ eq_refl) as Hb. now destruct b.
+        + intros i b td lr ->. pose proof (is_a_block _ _ Hcr ltac:(auto) _ _ _ _ eq_refl) as Hb. now destruct b.
+      - (* IndexTransposeRule *)
+        apply andb_true_iff in Hc as [Hcl Hcr].
+        destruct l as [il cl sil sol pl| | | | | |]; try discriminate.
+        destruct pl as [| | |uniq ix| |]; try discriminate. destruct uniq; [|discriminate].
+        inversion Ha; subst new.
+        destruct (wrapped r) as [xr|] eqn:Ew; [|discriminate]. apply same_eq' in Hr; subst xr.
+        destruct r as [|ir wr er| | | | |]; try discriminate. cbn in Ew. inversion Ew; subst er.
+        assert (Hw : subclass (wcls wr) CTranspose = true)
+          by (unfold is_a, isinst in Hcr; cbn in Hcr; now rewrite orb_false_r in Hcr).
+        intros x y Hch. apply chain2 in Hch as (y1 & H1 & H2). cbn [Denote.denote] in H1, H2.
+        cbn. f_equal. symmetry. eapply (lf_index_unique LF); eauto.
+      - (* TransposeIndexRule *)
+        apply andb_true_iff in Hc as [Hcl Hcr].
+        destruct r as [ir cr sir sor pr| | | | | |]; try discriminate.
+        destruct pr as [| | |uniq ix| |]; try discriminate.
+        destruct (Nat.ltb 1 (List.length (indexed_axes ix))) eqn:Elen; [discriminate|].
+        destruct uniq; [discriminate|].
+        destruct (leaf_shapes sir) as [|sh shs] eqn:Esh; [discriminate|].
+        destruct (forallb (shape_eqb sh) shs) eqn:Eall; cbn [negb] in Ha; [|discriminate].
+        destruct (indexed_axes ix) as [|axis rest] eqn:Eax; [discriminate|].
+        destruct (py_nth ix axis) as [[| | | |d|]|] eqn:Ei; try discriminate.
+        destruct (py_nth sh axis) as [n|] eqn:En; [|discriminate].
+        inversion Ha; subst new.
+        destruct (wrapped l) as [xl|] eqn:Ew; [|discriminate]. apply same_eq' in Hl; subst xl.
+        destruct l as [|il wl el| | | | |]; try discriminate. cbn in Ew. inversion Ew; subst el.
+        assert (Hw : subclass (wcls wl) CTranspose = true)
+          by (unfold is_a, isinst in Hcl; cbn in Hcl; now rewrite orb_false_r in Hcl).
+        intros x y Hch. apply chain2 in Hch as (y1 & H1 & H2). cbn [Denote.denote] in H1, H2.
+        rewrite chain_single. cbn [Denote.denote].
+        eapply (lf_tindex LF); eauto.
+        apply Nat.ltb_ge in Elen. apply Nat.leb_le. exact Elen.
+    Qed.
+
+    Lemma fires_sound order l r new : fires rr order l r = Ok (Some new) -> chain_le [l; r] new.
+    Proof.
+      induction order as [|ru rest IH]; cbn [Algebra.fires]; [discriminate|].
+      destruct (guard_ok (guard_of ru) l r) eqn:Eg; [|exact IH].
+      intros H. apply result_bind_ok in H as (res & Hres & H).
+      destruct res as [new'|]; [|exact (IH H)]. inversion H; subst new'.
+      eapply rule_sound; eauto.
+    Qed.
+
+    Lemma nth_error_split (ops : list op) i l r :
+      nth_error ops i = Some l -> nth_error ops (S i) = Some r ->
+      ops = firstn i ops ++ [l; r] ++ skipn (i + 2) ops.
+    Proof.
+      revert i. induction ops as [|a ops IH]; intros [|i] Hl Hr; cbn in *; try discriminate.
+      - inversion Hl; subst. destruct ops as [|b ops]; cbn in *; [discriminate|]. now inversion Hr; subst.
+      - f_equal. now apply IH.
+    Qed.
+
+    Lemma scan_sound fuel order : forall ops index res,
+      scan rr fuel order ops index = Ok res -> chain_le ops res.
+    Proof.
+      induction fuel as [|fuel IH]; intros ops index res H; [discriminate|].
+      cbn [Algebra.scan] in H. destruct (Nat.ltb (S index) (List.length ops)).
+      - destruct (nth_error ops index) as [l|] eqn:El; [|discriminate].
+        destruct (nth_error ops (S index)) as [r|] eqn:Er; [|discriminate].
+        apply result_bind_ok in H as (fr & Hf & H). destruct fr as [new0|].
+        + pose proof (nth_error_split _ _ _ _ El Er) as Hs.
+          assert (Hle : chain_le (firstn index ops ++ [l; r] ++ skipn (index + 2) ops)
+                                 (firstn index ops ++ identity_rule new0 ++ skipn (index + 2) ops)).
+          { apply chain_le_splice.
+            eapply chain_le_trans; [eapply fires_sound; eauto|apply identity_rule_sound]. }
+          rewrite <- Hs in Hle.
+          destruct (existsb _ (identity_rule new0)).
+          * eapply chain_le_trans; [exact Hle|]. eapply chain_le_trans; [apply homothety_rule_sound|]. eapply IH; eauto.
+          * eapply chain_le_trans; [exact Hle|]. eapply IH; eauto.
+        + eapply IH; eauto.
+      - inversion H; subst. apply chain_le_refl.
+    Qed.
+
+    Lemma algebraic_sound fuel order ops res :
+      algebraic_reduction rr fuel order ops = Ok res -> chain_le ops res.
+    Proof.
+      unfold Algebra.algebraic_reduction. destruct ops as [|a [|b rest]]; try (intros H; inversion H; subst; apply chain_le_refl).
+      intros H. apply result_bind_ok in H as (res' & Hs & H).
+      eapply chain_le_trans; [apply identity_rule_sound|].
+      eapply chain_le_trans; [apply homothety_rule_sound|].
+      eapply chain_le_trans; [eapply scan_sound; eauto|].
+      destruct res'; inversion H; subst; [|apply chain_le_refl].
+      intros x y Hc. cbn in Hc. inversion Hc; subst. reflexivity.
+    Qed.
+  End Rules.
+
+  (* ---------- reduce() ---------- *)
+  Lemma mapM_Forall2 (f : op -> result op) (P : op -> op -> Prop) l l' :
+    (forall e e', f e = Ok e' -> P e e') -> mapM f l = Ok l' -> Forall2 P l l'.
+  Proof.
+    intros Hf. revert l'. induction l as [|e r IH]; intros l' H; cbn in H.
+    - inversion H; constructor.
+    - apply result_bind_ok in H as (e' & He & H). apply result_bind_ok in H as (r' & Hr & H).
+      inversion H; subst. constructor; auto.
+  Qed.
+  Lemma omapl_mono l l' x ys : Forall2 den_le l l' ->
+    omapl (fun e => denote e x) l = Some ys -> omapl (fun e => denote e x) l' = Some ys.
+  Proof.
+    intros HF. revert ys. induction HF as [|e e' r r' He _ IH]; intros ys H; cbn in *; [exact H|].
+    destruct (denote e x) as [y|] eqn:E; [|discriminate].
+    destruct (omapl (fun e => denote e x) r) as [ys'|]; [|discriminate].
+    rewrite (He _ _ E), (IH _ eq_refl). exact H.
+  Qed.
+  Lemma omap2_mono l l' : Forall2 den_le l l' -> forall xs ys,
+    denote_list l xs = Some ys -> denote_list l' xs = Some ys.
+  Proof.
+    unfold DenoteL.denote_list.
+    induction 1 as [|e e' r r' He _ IH]; intros [|x xs] ys H; cbn in *; try exact H; try discriminate.
+    destruct (denote e x) as [y|] eqn:E; [|discriminate].
+    destruct (omap2 denote r xs) as [ys'|] eqn:E2; [|discriminate].
+    rewrite (He _ _ E), (IH _ _ E2). exact H.
+  Qed.
+  Lemma denote_list_idents l : forallb (@is_ident K) l = true -> forall xs,
+    List.length xs = List.length l -> denote_list l xs = Some xs.
+  Proof.
+    unfold DenoteL.denote_list.
+    induction l as [|e r IH]; intros Hall [|x xs] Hlen; cbn in *; try lia; [reflexivity|].
+    apply andb_true_iff in Hall as [He Hr]. destruct e; try discriminate. cbn.
+    now rewrite (IH Hr xs ltac:(lia)).
+  Qed.
+
+  Theorem reduce_sound_l : forall fuel order e e', reduce fuel order e = Ok e' -> den_le e e'.
+  Proof.
+    induction fuel as [|f IH]; intros order e e' H; [discriminate|].
+    cbn [Algebra.reduce] in H.
+    destruct e as [i c si so p|i w e0|i s|i k s|i l|i l|i b td l].
+    - (* leaf operators: index without indexed axis, no-op ravel/reshape *)
+      destruct c; try (inversion H; subst; apply den_le_refl).
+      + (* CIndex *)
+        destruct p as [| | |u ix| |]; try (inversion H; subst; apply den_le_refl).
+        destruct (indexed_axes ix) eqn:Eax; inversion H; subst; [|apply den_le_refl].
+        intros x y Hd. cbn [Denote.denote] in *. f_equal. symmetry. eapply (lf_index_noop LF); eauto.
+      + destruct (struct_eqb so si); inversion H; subst; [|apply den_le_refl].
+        intros x y Hd. cbn [Denote.denote] in *. f_equal. symmetry.
+        exact (lf_reshape_noop LF _ _ _ _ _ _ _ (or_introl eq_refl) Hd).
+      + destruct (struct_eqb so si); inversion H; subst; [|apply den_le_refl].
+        intros x y Hd. cbn [Denote.denote] in *. f_equal. symmetry.
+        exact (lf_reshape_noop LF _ _ _ _ _ _ _ (or_intror eq_refl) Hd).
+    - inversion H; subst; apply den_le_refl.
+    - inversion H; subst; apply den_le_refl.
+    - inversion H; subst; apply den_le_refl.
+    - (* composition *)
+      apply result_bind_ok in H as (ops & Hops & H). apply result_bind_ok in H as (ops' & Halg & H).
+      assert (HF : Forall2 den_le l ops) by (eapply mapM_Forall2; [|exact Hops]; intros; eapply IH; eauto).
+      assert (Hle : chain_le l ops').
+      { eapply chain_le_trans; [apply chain_le_Forall2; exact HF|].
+        eapply algebraic_sound; [|exact Halg]. intros; eapply IH; eauto. }
+      intros x y Hd. rewrite denote_comp in Hd. specialize (Hle _ _ Hd).
+      destruct ops' as [|a [|b r]]; inversion H; subst.
+      + cbn in Hle. inversion Hle; subst. reflexivity.
+      + exact Hle.
+      + now rewrite denote_comp.
+    - (* sum *)
+      apply result_bind_ok in H as (ops & Hops & H).
+      assert (HF : Forall2 den_le l ops) by (eapply mapM_Forall2; [|exact Hops]; intros; eapply IH; eauto).
+      intros x y Hd. rewrite denote_add in Hd.
+      destruct (omapl (fun e => denote e x) l) as [ys|] eqn:E; [|discriminate]. cbn [obind] in Hd.
+      pose proof (omapl_mono _ _ _ _ HF E) as E'.
+      destruct ops as [|a [|b r]]; injection H as <-.
+      + rewrite denote_add, E'. exact Hd.
+      + cbn in E'. destruct (denote a x) as [ya|]; [|discriminate]. inversion E'; subst. cbn in Hd. exact Hd.
+      + rewrite denote_add, E'. exact Hd.
+    - (* block operators *)
+      apply result_bind_ok in H as (ops & Hops & H). apply result_bind_ok in H as (new & Hnew & H).
+      assert (HF : Forall2 den_le l ops) by (eapply mapM_Forall2; [|exact Hops]; intros; eapply IH; eauto).
+      assert (Hlen : List.length ops = List.length l).
+      { clear - HF. induction HF; cbn; congruence. }
+      assert (Hnew' : new = Block fresh b td ops).
+      { unfold mk_block in Hnew. destruct (negb _); [discriminate|]. destruct ops; [discriminate|].
+        destruct b; try destruct (all_eqb _); inversion Hnew; reflexivity. }
+      subst new.
+      assert (Hle : den_le (Block i b td l) (Block fresh b td ops)).
+      { intros x y Hd. rewrite denote_block in *. rewrite Hlen. destruct (negb _); [discriminate|].
+        destruct b.
+        - destruct (split_prefix td x) as [xs|]; [|discriminate]. cbn [obind] in *.
+          destruct (denote_list l xs) as [ys|] eqn:E; [|discriminate]. now rewrite (omap2_mono _ _ HF _ _ E).
+        - destruct (split_prefix td x) as [xs|]; [|discriminate]. cbn [obind] in *.
+          destruct (denote_list l xs) as [ys|] eqn:E; [|discriminate]. now rewrite (omap2_mono _ _ HF _ _ E).
+        - destruct (omapl (fun e => denote e x) l) as [ys|] eqn:E; [|discriminate]. now rewrite (omapl_mono _ _ _ _ HF E). }
+      destruct b; try (inversion H; subst; exact Hle).
+      destruct (forallb (@is_ident K) ops) eqn:Eall; inversion H; subst; [|exact Hle].
+      intros x y Hd. apply Hle in Hd. rewrite denote_block in Hd.
+      destruct (negb _) eqn:En; [discriminate|]. apply negb_false_iff, Nat.eqb_eq in En.
+      destruct (split_prefix td x) as [xs|] eqn:Ex; [|discriminate]. cbn [obind] in Hd.
+      rewrite (denote_list_idents _ Eall xs) in Hd by exact (eq_trans (split_length _ _ Ex) (eq_sym En)).
+      cbn in Hd. rewrite (build_split _ _ _ Ex) in Hd. exact Hd.
+  Qed.
+End Sound.
